@@ -74,6 +74,13 @@ theorem nested_counts (done : List (Option Mol)) (f : RawFrag) (r : Mol) (h : ev
     unfold atomNodes at h2
     omega
 
+/-- "one bond per drawn bond" joins two atoms of the molecule: in whatever `_parse_fragment` returns — any number
+of nodes and bonds, hapto expansion, nested fragments to any depth — every bond refers to two existing atoms
+(no dangling end after the deletions and index shifts of the joins). -/
+theorem bonds_join_existing_atoms (fs : List RawFrag) (m : Mol) (h : parseFragment fs = some m) :
+    ∀ b ∈ m.bonds, b.a1 < m.atoms.length ∧ b.a2 < m.atoms.length :=
+  parseFragment_wf fs m h
+
 /-- the stereo marks of a drawing play no role in the constitution: two `<b>` records that differ only in a
 wedge / hash / bold mark give the same bond type ("mirroring … leaves the constitution unchanged"). -/
 theorem constitution_ignores_stereo_marks (b : RawBond) (d₁ d₂ : Option String)
